@@ -5,7 +5,8 @@
      V / W lines: Peg.Spec.eval on the ORIGINAL grammar against what the real VM returned on the optimized rules
                                                                                             -> kind "spec" (class = stream / witness)
      CONTRACT lines (real VM before vs after a pass) are passed through.
-   Flags: --fixpop / --fixmap select the model of the tree with fixes/C05-1 / C05-2 applied; --spec K = input length bound. *)
+   Flags: --fixpop / --fixmap select the model of the tree with fixes/C05-1 / C05-2 applied; --ovf the unroller's original
+   `num + 1` range arithmetic (before the overflow fix); --spec K = input length bound. *)
 open Opt_model
 open Runner_common
 type string = Stdlib.String.t
@@ -119,9 +120,13 @@ let alphabet (gtxt : string) : string list =
   let a = if contains gtxt "c3a9" || contains gtxt "c389" then a @ ["\xc3\xa9"] else a in
   if List.length a = 2 then a @ ["z"] else a
 
+(* node tags are left out of the VM-vs-Spec comparison: `#t = e` with an e that produces no node makes the VM tag whatever token
+   is last in the queue (known finding of C03/C01, not an optimizer matter); tags ARE compared before/after every pass *)
+let strip_tags (s : string) : string = Str.global_replace (Str.regexp "#[A-Za-z0-9_]+") "" s
+
 let () =
-  let fixpop = ref false and fixmap = ref false and speclen = ref 0 in
-  Array.iteri (fun i a -> if a = "--fixpop" then fixpop := true else if a = "--fixmap" then fixmap := true
+  let fixpop = ref false and fixmap = ref false and ovf = ref false and speclen = ref 0 in
+  Array.iteri (fun i a -> if a = "--fixpop" then fixpop := true else if a = "--fixmap" then fixmap := true else if a = "--ovf" then ovf := true
                           else if a = "--spec" then speclen := int_of_string Sys.argv.(i + 1)) Sys.argv;
   let gs : (string, bool * string * grammar) Hashtbl.t = Hashtbl.create 16 in
   let n = ref 0 and spec_cases = ref 0 and spec_fuel = ref 0 and known_lister = ref 0 and panics_agree = ref 0 in
@@ -142,10 +147,10 @@ let () =
       let g = grammar_of gin in
       let model =
         (try
-           if p <= 5 then (match apply_pass extras (nat_of_int p) g with Some g' -> sexp_grammar g' | None -> "PANIC")
+           if p <= 5 then (match apply_pass !ovf extras (nat_of_int p) g with Some g' -> sexp_grammar g' | None -> "PANIC")
            else if p = 6 then (match to_optimized_rules extras !fixpop !fixmap false g with Some og -> sexp_ogrammar og | None -> "PANIC")
            else if p = 7 then (match to_optimized_rules extras !fixpop !fixmap true g with Some og -> sexp_ogrammar og | None -> "PANIC")
-           else (match optimize extras !fixpop !fixmap g with Some og -> sexp_ogrammar og | None -> "PANIC")
+           else (match optimize !ovf extras !fixpop !fixmap g with Some og -> sexp_ogrammar og | None -> "PANIC")
          with Stack_overflow -> "OVERFLOW") in
       let case = sp "x=%s pass=%s g=%s" x pass gin in
       if model <> gout then report "model" case gout model
@@ -169,7 +174,7 @@ let () =
       let spec = spec_obs g extras "r0" (unhex inp) in
       if spec = "Fuel" || impl = "Limit" then incr spec_fuel
       else if impl = "Panic" then bump "vm-panic"      (* PEEK/POP on an empty stack and the like: C01's known finding, not an optimizer matter *)
-      else if impl <> spec then spec_report stream (sp "x=%d stream=%s in=%s g=%s" (if extras then 1 else 0) stream inp gtxt) impl spec
+      else if strip_tags impl <> strip_tags spec then spec_report stream (sp "x=%d stream=%s in=%s g=%s" (if extras then 1 else 0) stream inp gtxt) impl spec
     | ["W"; name; x; gtxt; rule; inp; impl] ->
       incr n; incr spec_cases;
       let spec = spec_obs (grammar_of gtxt) (x = "1") rule (unhex inp) in
